@@ -138,7 +138,7 @@ impl Prop for C12 {
     fn strategy(_ctx: &Ctx) -> BoxedStrategy<Case> {
         // the crash index is drawn relative to the number of calls of the send, half of the time
         // strictly inside the transfer (2..=packets), so that the interesting region is not rare
-        (prop_oneof![1 => Just(1u8), 6 => 2u8..=6], any::<bool>(), 0u8..=3, any::<bool>(), 0u8..4, any::<bool>(), any::<bool>(), 0u16..=255, any::<bool>())
+        (prop_oneof![1 => Just(1u8), 5 => 2u8..=6, 2 => 7u8..=12], any::<bool>(), 0u8..=5, any::<bool>(), 0u8..4, any::<bool>(), any::<bool>(), 0u16..=255, any::<bool>())
             .prop_map(|(packets, attach, before, survivor, observer, concurrent, inside, kf, poll_first)| {
                 let k = if inside && packets >= 2 { 2 + ((kf as u32 * (packets as u32 - 1)) >> 8) as u8 } else { ((kf as u32 * (packets as u32 + 10)) >> 8) as u8 };
                 Case { packets, attach, before, survivor, observer, concurrent, k, poll_first }
@@ -390,7 +390,7 @@ fn run(case: &Case) -> Result<Outcome, Failure> {
     }
 
     // --- the dying sender ----------------------------------------------------------------------------
-    let (packets, attach, before, k) = (case.packets.clamp(1, 6), case.attach, case.before, case.k);
+    let (packets, attach, before, k) = (case.packets.clamp(1, 12), case.attach, case.before, case.k);
     let child_tx = tx.clone();
     let child_ptx = ptx.clone();
     let child = sandbox::fork_child(move |_w| {
